@@ -113,7 +113,8 @@ def build(tier="quick", seed=0):
     b = Bundle("C08")
     spec_lemmas(b)
     ctx = mp.get_context("fork")
-    with ctx.Pool(6) as pool:
+    from tpv.oblig import _die_with_parent
+    with ctx.Pool(6, initializer=_die_with_parent) as pool:
         res = pool.map(_one_degree, range(2, 8))
     levels = {}
     for l, out, fns, exits, obs, lv in res:
